@@ -149,6 +149,79 @@ def gen_cases(ck):
     return cases
 
 
+def scenario_blocking(s, timeout, arrive_at, n_arrivals):
+    """H3: a reader blocked in get_next_signal(timeout) and an arriver thread (not task threads)."""
+    import threading as real_threading
+    import dsched
+    from qmi.core.pubsub import QMI_SignalReceiver, QMI_SignalMessage
+    from qmi.core.messaging import QMI_MessageHandlerAddress as Addr
+    from qmi.core.exceptions import QMI_TimeoutException
+    r = QMI_SignalReceiver(4)
+    obs = {"result": None, "t_return": None, "t_arrival": None}
+    s.obs = obs
+
+    def arriver():
+        if arrive_at is not None:
+            dsched.FAKE_TIME.sleep(arrive_at)
+            for k in range(n_arrivals):
+                if obs["t_arrival"] is None:
+                    obs["t_arrival"] = s.clock
+                r._receive_signal(QMI_SignalMessage(Addr("c", "p"), Addr("c", "$pubsub"), "sig", (k,)))
+    th = real_threading.Thread(target=arriver)
+    th.start()
+    try:
+        sig = r.get_next_signal(timeout)
+        obs["result"] = ("sig", sig.args[0], sig.receiver_seqnr)
+    except QMI_TimeoutException:
+        obs["result"] = ("timeout",)
+    obs["t_return"] = s.clock
+    th.join()
+    return obs
+
+
+def oracle_blocking(timeout, arrive_at, res):
+    if res["status"] == "deadlock":
+        if arrive_at is None and timeout is None:
+            return None            # nothing ever arrives and no timeout: blocking forever is the contract
+        return "the reader never returns although a signal was queued / a timeout was set"
+    if res["status"] != "ok":
+        return "scenario error %s" % str(res.get("trace") or res)[:300]
+    o = res["obs"]
+    arrives_first = arrive_at is not None and (timeout is None or arrive_at < timeout)
+    if arrives_first:
+        if o["result"][0] != "sig" or o["result"][1] != 0 or o["result"][2] != 0:
+            return "expected the first signal, got %r" % (o["result"],)
+        if abs(o["t_return"] - arrive_at) > 1e-9:
+            return "signal queued at t=%s but the reader returned at t=%s (not 'as soon as one is queued')" % (arrive_at, o["t_return"])
+    elif timeout is not None and (arrive_at is None or arrive_at > timeout):
+        if o["result"][0] != "timeout":
+            return "expected the timeout error, got %r" % (o["result"],)
+        if abs(o["t_return"] - timeout) > 1e-9:
+            return "timeout %s but the reader returned at t=%s" % (timeout, o["t_return"])
+    return None
+
+
+def run_blocking(ck):
+    import dsched
+    import qmi.core.pubsub, qmi.core.messaging, qmi.core.task  # noqa
+    shapes = [(None, 2.0, 1), (5.0, 2.0, 2), (1.0, 3.0, 1), (1.0, None, 0), (0.0, None, 0), (0.0, 0.0, 1), (3.0, 3.0, 1), (None, 0.0, 3)]
+    nper = 12 if ck.tier == "quick" else 200
+    jobs, meta = [], []
+    for sh in shapes:
+        for i in range(nper):
+            jobs.append((scenario_blocking, sh, dict(strategy="random" if i % 2 else "pct", seed=ck.seed * 991 + i)))
+            meta.append(sh)
+    for sh, res in zip(meta, dsched.run_forked(jobs, nproc=16, wall_timeout=30)):
+        ck.note_case(("blocking", sh, tuple(res.get("choices") or ())), True)
+        ck.count("blocking:%s" % res["status"])
+        if sh[0] is not None and sh[1] is not None and sh[0] == sh[1]:
+            continue          # arrival exactly at the deadline: either outcome is within the contract
+        why = oracle_blocking(sh[0], sh[1], res)
+        if why:
+            ck.report("oracle:blocking", "C09 (blocking get_next_signal) fails on the implementation: " + why,
+                      {"blocking": True, "timeout": sh[0], "arrive_at": sh[1], "n_arrivals": sh[2], "schedule": res.get("choices")})
+
+
 def run(ck):
     ck.theory_dir = THEORY
     ck.build_theory(THEORY)
@@ -156,10 +229,11 @@ def run(ck):
         "Coq 8.16.1 kernel (vm_compute used to evaluate the model on cases; no native_compute)",
         "hand-written model theories/C09/Model.v of QMI_SignalReceiver, tied to /repo by this run's correspondence",
         "python harness c09.py (stub message objects, canonicalisation of results)",
-        "CPython deque(maxlen) semantics and Condition as a mutex (single-threaded H1 drive; the blocking wait is covered under C11)",
+        "CPython deque(maxlen) semantics; the blocking wait is driven under the deterministic scheduler (virtual time) and its wake-up is theorem C11_signal_wakes_reader of the C11 machine",
     ]
-    ck.assumptions = ["get_next_signal is exercised with timeout=0 (non-blocking); the blocking wait path is modelled under C11",
+    ck.assumptions = ["the history model uses get_next_signal(0); the blocking form is exercised separately (reader + arriver threads under dsched: returns at the arrival instant, times out at the deadline)",
                       "payloads are integers standing for arbitrary args tuples (the queue never inspects them)"]
+    run_blocking(ck)
     cases = gen_cases(ck)
     terms, metas = [], []
     for cap, pol, ops, kind in cases:
@@ -216,6 +290,14 @@ def shrink(meta):
 
 def replay(rep):
     c = rep["case"]
+    if c.get("blocking"):
+        import dsched
+        import qmi.core.pubsub, qmi.core.messaging, qmi.core.task  # noqa
+        res = dsched.run_forked([(scenario_blocking, (c["timeout"], c["arrive_at"], c["n_arrivals"]),
+                                  dict(strategy="replay", schedule=list(c.get("schedule") or [])))], nproc=1)[0]
+        why = oracle_blocking(c["timeout"], c["arrive_at"], res)
+        print(res["status"], res.get("obs"), why or "property holds on this schedule")
+        return 1 if why else 0
     ops = [tuple(o) for o in c["ops"]]
     outs = impl_run(c["cap"], c["policy"], ops)
     print("implementation outputs:", outs)
